@@ -5,6 +5,7 @@ package cmachine
 import (
 	"fmt"
 	"sync"
+	"sync/atomic"
 
 	"perun.network/go-perun/channel"
 
@@ -165,6 +166,10 @@ func run(r *ev.Run, cfg props.Cfg, prop string) {
 		r.Set("phase_x_operation_matrix_legend", "[succeeded fresh, failed fresh, succeeded after an earlier failure, failed after an earlier failure]")
 		r.Count("matrix_cells_hit", int64(len(out)))
 		r.Count("phases_hit", int64(len(phases)))
+	}
+	if n := atomic.LoadInt64(&mexplore.HarnessPanics); n > 0 {
+		r.Note("%d steps were skipped because the explorer's bookkeeping could not follow the implementation (only possible after a reported defect)", n)
+		r.Count("explorer_steps_skipped_after_a_defect", n)
 	}
 	r.Assume("signature indices are below the participant count; ForceUpdate is applied only when a current state exists (as the property states)")
 	r.Assume("branching in the breadth-first explorer rebuilds machines with channel.RestoreStateMachine from harness-made snapshots; random walks use call sequences only")
